@@ -381,6 +381,167 @@ def handleEmu (toks : List String) : String :=
       else (if done then "done " else "loop ") ++ joinWith "," (w.map (fun x => toString x.bar))
   | _, _ => "bad"
 
+/-! ## ghost layer: the memory accesses that are *really* outstanding
+
+The scheduler model (`C14.step`) only has the two counters `osc` / `ovc` of a wavefront. This file
+adds, next to a scheduler state, the set of memory instructions of every wavefront whose responses
+have not all arrived, and annotated events that say *which* instruction a response belongs to. Nothing
+here is read by a transition of `C14.step`: `gstep` runs `step` on the erased event and updates the
+ghost besides (`(gstep c gs o).s = (step c gs.s o.erase).1` by definition), so every theorem about
+`run` applies to the scheduler component of a ghost run.
+
+A memory instruction is split by the coalescer / the scalar unit into `n + 1` transactions; all but
+the last carry `CanWaitForCoalesce`, and the return handlers decrement the counters when the response
+of the *last* transaction arrives (`memRetWf … last`). `issueFlat` (issue side, tied to
+`VectorMemoryUnit.executeFlatLoad/Store`) counts one instruction on both counters; the scalar unit
+counts one on the LGKM counter. -/
+
+/-- one memory instruction whose responses have not all arrived -/
+structure Acc where
+  /-- responses still to come from the transactions flagged `CanWaitForCoalesce` -/
+  rest : Nat
+  /-- the response of the last transaction (the one that decrements the counters) is still to come -/
+  lastPending : Bool
+deriving DecidableEq, Repr
+
+/-- the really outstanding memory instructions of one wavefront, oldest first, per memory path:
+    FLAT instructions (vector memory port) and scalar loads (scalar memory port) -/
+structure GWf where
+  qv : List Acc
+  qs : List Acc
+deriving DecidableEq, Repr
+
+/-- really outstanding vector-memory instructions (what `vmcnt` is meant to count) -/
+def GWf.trueVM (q : GWf) : Nat := q.qv.length
+/-- really outstanding LGKM accesses (FLAT instructions count on both, as `issueFlat` does) -/
+def GWf.trueLGKM (q : GWf) : Nat := q.qv.length + q.qs.length
+
+structure GState where
+  s : State
+  /-- ghost: wavefront id ↦ really outstanding accesses -/
+  g : Nat → GWf
+
+/-- events with the information the scheduler does not see -/
+inductive GOp where
+  /-- any event that is not a counted memory issue / return -/
+  | plain (o : Op)
+  /-- `memIssue i vector`; the instruction has `n` transactions besides its last one -/
+  | memIssue (i : Nat) (vector : Bool) (n : Nat)
+  /-- `memRet i kind last` (kind 0/1 FLAT load/store, 3 scalar load): the response belongs to the
+      instruction at position `k` of the queue of its memory path; `last` = it is the response of
+      the instruction's last transaction -/
+  | memRet (i kind k : Nat) (last : Bool)
+deriving Repr, DecidableEq
+
+def GOp.erase : GOp → Op
+  | .plain o => o
+  | .memIssue i v _ => .memIssue i v
+  | .memRet i kind _ last => .memRet i kind last
+
+/-- a response arrives for the instruction at position `k` of queue `q`: one response fewer to
+    wait for; an instruction all of whose responses have arrived leaves the queue -/
+def accRet : List Acc → Nat → Bool → List Acc
+  | [], _, _ => []
+  | a :: q, 0, last =>
+    let a' : Acc := if last then { a with lastPending := false } else { a with rest := a.rest - 1 }
+    if a'.rest = 0 ∧ a'.lastPending = false then q else a' :: q
+  | a :: q, k + 1, last => a :: accRet q k last
+
+def gIssue (q : GWf) (vector : Bool) (n : Nat) : GWf :=
+  if vector then { q with qv := q.qv ++ [⟨n, true⟩] } else { q with qs := q.qs ++ [⟨n, true⟩] }
+
+def gRet (q : GWf) (kind k : Nat) (last : Bool) : GWf :=
+  if kind = 0 ∨ kind = 1 then { q with qv := accRet q.qv k last }
+  else if kind = 3 then { q with qs := accRet q.qs k last }
+  else q
+
+/-- one annotated event: the scheduler does `step` on the erased event -/
+def gstep (c : Cfg) (gs : GState) (o : GOp) : GState :=
+  { s := (step c gs.s o.erase).1
+    g := match o with
+      | .plain _ => gs.g
+      | .memIssue i v n => fun j => if j = i then gIssue (gs.g i) v n else gs.g j
+      | .memRet i kind k last => fun j => if j = i then gRet (gs.g i) kind k last else gs.g j }
+
+def grun (c : Cfg) (gs : GState) (ops : List GOp) : GState := ops.foldl (gstep c) gs
+
+/-- the queue a response of `kind` belongs to -/
+def pathQueue (q : GWf) (kind : Nat) : List Acc := if kind = 3 then q.qs else q.qv
+
+/-- the annotation is consistent: a `plain` event is not a counted memory event, and a response
+    belongs to a transaction that is really outstanding -/
+def respOK (gs : GState) : GOp → Bool
+  | .plain (.memIssue _ _) => false
+  | .plain (.memRet _ kind _) => decide (kind > 3)
+  | .plain _ => true
+  | .memIssue _ _ _ => true
+  | .memRet i kind k last =>
+    (kind == 0 || kind == 1 || kind == 3) &&
+    match (pathQueue (gs.g i) kind)[k]? with
+    | none => false
+    | some a => if last then a.lastPending else decide (a.rest > 0)
+
+/-- **in-order returns** (what the reorder buffer of property C15 provides on each memory path):
+    the response that arrives belongs to the oldest outstanding instruction of its path, and the
+    response of an instruction's last transaction arrives after those of its other transactions -/
+def inOrder (gs : GState) : GOp → Bool
+  | .memRet i kind k last =>
+    k == 0 && (!last || match (pathQueue (gs.g i) kind)[0]? with
+      | none => false
+      | some a => a.rest == 0)
+  | _ => true
+
+def respOKRun (c : Cfg) : GState → List GOp → Bool
+  | _, [] => true
+  | gs, o :: ops => respOK gs o && respOKRun c (gstep c gs o) ops
+
+def inOrderRun (c : Cfg) : GState → List GOp → Bool
+  | _, [] => true
+  | gs, o :: ops => inOrder gs o && inOrderRun c (gstep c gs o) ops
+
+
+/-! ### `c14 ghost n=<W> ; gi <i> <v|s> <n> ; gr <i> <kind> <k> <last> ; …`
+
+`W` fresh wavefronts; after every annotated event the counters of the wavefront concerned and its
+really outstanding accesses `ovc:osc:trueVM:trueLGKM`; at the end whether every annotation was
+consistent (`ok`) and whether the responses returned in order (`ord`). -/
+
+def parseGOp (toks : List String) : Option GOp :=
+  match toks with
+  | ["gi", i, v, n] => do pure (.memIssue (← i.toNat?) (v == "v") (← n.toNat?))
+  | ["gr", i, kind, k, last] => do
+    pure (.memRet (← i.toNat?) (← kind.toNat?) (← k.toNat?) ((← last.toNat?) != 0))
+  | _ => none
+
+def GOp.wf : GOp → Nat
+  | .plain _ => 0
+  | .memIssue i _ _ => i
+  | .memRet i _ _ _ => i
+
+def handleGhost (toks : List String) (ops : List String) : String :=
+  match kvNat? toks "n" with
+  | none => "bad"
+  | some n =>
+    let wfs : List Wf := (List.range n).map (fun i =>
+      { id := i, wg := 0, state := .ready, op := 99, lk := 0, vm := 0, osc := 0, ovc := 0,
+        pc := 0, inPool := true, arr := 0, bar := 0 })
+    let gs0 : GState :=
+      { s := { wfs := wfs, exec := [], buf := [], out := [], sent := [], fault := false }
+        g := fun _ => ⟨[], []⟩ }
+    let r := ops.foldl (fun (acc : GState × Bool × Bool × Array String) o =>
+      match parseGOp (words o) with
+      | none => (acc.1, acc.2.1, acc.2.2.1, acc.2.2.2.push "x")
+      | some op =>
+        let gs := acc.1
+        let gs' := gstep Cfg.cur gs op
+        let i := op.wf
+        let tok := match getWf gs'.s.wfs i with
+          | none => "-"
+          | some w => s!"{w.ovc}:{w.osc}:{(gs'.g i).trueVM}:{(gs'.g i).trueLGKM}"
+        (gs', acc.2.1 && respOK gs op, acc.2.2.1 && inOrder gs op, acc.2.2.2.push tok))
+      (gs0, true, true, #[])
+    joinWith " " (r.2.2.2.toList ++ [s!"ok={r.2.1} ord={r.2.2.1}"])
+
 /-- `VectorMemoryUnit.executeFlatLoad/Store`: issuing one FLAT access counts exactly one more
     outstanding vector access and one more outstanding scalar (LGKM) access, unbounded. -/
 def issueFlat (vm lgkm : Nat) : Nat × Nat := (vm + 1, lgkm + 1)
@@ -395,6 +556,7 @@ def handle (line : String) : String :=
       | some v, some sc => let r := issueFlat v sc; s!"ok=true v={r.1} s={r.2}"
       | _, _ => "bad"
     else
+    if toks.contains "ghost" then handleGhost toks ops else
     if toks.contains "emu" then handleEmu toks else
     match parseState toks with
     | none => "bad-cfg"
